@@ -23,7 +23,7 @@ REGISTRY: dict[str, "Lemma"] = {}
 
 
 class Lemma:
-    def __init__(self, name, fn, args, params, budget, per_path, tiers, bounds, premise, doc, thorough_budget):
+    def __init__(self, name, fn, args, params, budget, per_path, tiers, bounds, premise, doc, thorough_budget, smt=None):
         self.name = name
         self.fn = fn
         self.args = args
@@ -35,6 +35,7 @@ class Lemma:
         self.bounds = bounds
         self.premise = premise
         self.doc = doc
+        self.smt = smt
 
     def instances(self, tier, seed):
         if self.params is None:
@@ -44,14 +45,17 @@ class Lemma:
 
 
 def lemma(args=None, *, name=None, params=None, budget=60, thorough_budget=None, per_path=20, tiers=("quick", "thorough"),
-          bounds="", premise=False):
+          bounds="", premise=False, smt=None):
     """Declare a lemma.  Without `params` the decorated function is the harness; with `params` it is a factory P -> harness
-    (or P -> (harness, before_path)).  `premise=True`: a concrete, labelled data premise (function returns (ok, detail))."""
+    (or P -> (harness, before_path)).  `premise=True`: a concrete, labelled data premise (function returns (ok, detail)).
+    `smt=f`: the instance is decided by f(P, budget) -> dict(queries, unsat, unknown, cex, witnesses, functions, solver_s, detail), a
+    direct SMT encoding regenerated from the source (symx.fpkernel); the decorated function is then only the CONCRETE harness over the
+    real code, used to replay the solver's counterexample and the witnesses."""
 
     def deco(fn):
         nm = name or fn.__name__
         REGISTRY[nm] = Lemma(nm, fn, args or {}, params, budget, per_path, tiers, bounds, premise, (fn.__doc__ or "").strip(),
-                             thorough_budget)
+                             thorough_budget, smt)
         return fn
 
     return deco
@@ -159,6 +163,16 @@ def run_instance(prop, name, P, tier, seed, budget):
             return ok
 
     from . import driver, stubs
+    if lem.smt is not None:
+        r = lem.smt(P, budget)
+        out.update(paths=r["queries"], confirmed=r["unsat"], ignored=0, unknown=r["unknown"], refuted=bool(r.get("cex")), nondeterministic=0,
+                   exhausted=(r["unknown"] == 0 and not r.get("cex")), timed_out=r["unknown"] > 0, cex=r.get("cex"), exc=None,
+                   witnesses=r.get("witnesses", []), functions=r.get("functions", []), solver_queries=r["queries"], solver_s=r["solver_s"],
+                   unknown_reasons=r.get("unknown_reasons", []), stubs=list(stubs.STUBS_IN_FORCE) + ["encoding:" + r.get("detail", "")],
+                   plugin_stats={}, excluded_regions=regions)
+        out["verdict"] = "CEX-UNREPLAYED" if r.get("cex") else ("HOLDS" if out["exhausted"] else "INCONCLUSIVE")
+        out["wall"] = time.time() - t0
+        return out
     res = driver.explore(harness, lem.args, timeout=budget, per_path_timeout=lem.per_path, before_path=before)
     d = res.as_dict()
     out.update({k: d[k] for k in ("paths", "confirmed", "ignored", "unknown", "refuted", "nondeterministic", "exhausted",
